@@ -309,8 +309,57 @@ class FakeResponse:
     pass
 
 
+class CIHeaders:
+    """response headers as `requests` delivers them: look-up by name in any letter case (not a dict)."""
+
+    def __init__(self, d=None):
+        self._d = {}
+        for k, v in (d or {}).items():
+            self[k] = v
+
+    def __setitem__(self, k, v):
+        self._d[k.lower()] = (k, v)
+
+    def __getitem__(self, k):
+        return self._d[k.lower()][1]
+
+    def __contains__(self, k):
+        return isinstance(k, str) and k.lower() in self._d
+
+    def get(self, k, default=None):
+        x = self._d.get(k.lower()) if isinstance(k, str) else None
+        return default if x is None else x[1]
+
+    def items(self):
+        return list(self._d.values())
+
+
+def http_text(b, fl):
+    """the body text the server sends for content b: the JSON bytes, or (YAML flavours) the same document as YAML."""
+    raw = render(b).decode()
+    if fl.get("fmt", "json") == "json":
+        return raw
+    try:
+        doc = json.loads(raw)
+    except ValueError:
+        return raw                      # "{x1": not YAML either (unterminated flow mapping)
+    import yaml
+    return yaml.safe_dump(doc, sort_keys=False)
+
+
 def make_requests(world, etags, fl):
-    """fake `requests` module: one server holding the world's document."""
+    """fake `requests` module: one server holding the world's document.  The SHAPE of a 200 response is a flavour of
+    the case (body x fmt x header style), crossed by the generators with validate_schema and the three document kinds:
+      body "json"          .json() and .text (+ optional JSON Content-Type)
+           "jsonraise"     .json() raises, .text present
+           "text"          .text only (no .json attribute)
+           "content"       .content bytes only (.text is None)
+           "jsononly"      .json() only, .text == "", Content-Type application/json (the source's third branch)
+           "jsononly-noct" the same without a Content-Type header
+      fmt  "json" | "yaml-ct" (YAML text, Content-Type application/yaml) | "yaml-url" (YAML text, text/plain, the URL
+           ends in .yaml); with YAML text .json() raises or is absent
+      ci   headers in a case-insensitive container, ETag / Content-Type spelt in any letter case (hkey); otherwise a plain
+           dict with "ETag" or "etag" (the two spellings the source looks up in a dict)."""
     calls = []
     mod = types.ModuleType("requests")
     mod.n304 = 0
@@ -318,13 +367,16 @@ def make_requests(world, etags, fl):
     class HTTPError(Exception):
         pass
 
+    def mk_headers(d):
+        return CIHeaders(d) if fl.get("ci") else dict(d)
+
     def get(url, headers=None, timeout=None):
         headers = dict(headers or {})
         calls.append(headers)
         r = FakeResponse()
         if world.fail_load or world.store is None:
             r.status_code = (fl.get("status5", 503) if world.fail_load else 404)
-            r.headers = {}
+            r.headers = mk_headers({})
             r.text = "oops"
 
             def rfs():
@@ -333,36 +385,49 @@ def make_requests(world, etags, fl):
             return r
         b = world.store[0]
         et = ('W/"%s"' if fl.get("weak") else '"%s"') % md5(b)     # content-hash ETag: a roll-back re-uses the old one
+        hk = fl.get("hkey", "ETag")
         if etags and headers.get("If-None-Match") == et:
             mod.n304 += 1
             r.status_code = 304
-            r.headers = {"ETag": et} if fl.get("etag304") else {}
+            r.headers = mk_headers({hk: et} if fl.get("etag304") else {})
             r.raise_for_status = lambda: None
             r.text = ""
             return r
         r.status_code = 200
         r.raise_for_status = lambda: None
-        hk = fl.get("hkey", "ETag")
-        r.headers = {hk: et} if etags else {}
-        if fl.get("ctype"):
-            r.headers["Content-Type" if hk == "ETag" else "content-type"] = "application/json"
-        raw = render(b)
+        r.headers = mk_headers({hk: et} if etags else {})
         body = fl.get("body", "json")
+        fmt = fl.get("fmt", "json")
+        ck = "Content-Type" if hk == "ETag" else ("content-type" if not fl.get("ci") else "CONTENT-type")
+        if fmt == "yaml-ct":
+            r.headers[ck] = fl.get("yaml_ct", "application/yaml")
+        elif fmt == "yaml-url":
+            r.headers[ck] = "text/plain"
+        elif body == "jsononly" or (fl.get("ctype") and body != "jsononly-noct"):
+            r.headers[ck] = fl.get("json_ct", "application/json")
+        text = http_text(b, fl)
+        if fmt != "json" and body in ("json", "jsononly", "jsononly-noct"):
+            body = "jsonraise"          # a YAML body has no JSON reading
         if body == "json":
             def js():
-                return json.loads(raw.decode())
+                return json.loads(text)
             r.json = js
-            r.text = raw.decode()
+            r.text = text
         elif body == "jsonraise":
             def js2():
                 raise ValueError("no json")
             r.json = js2
-            r.text = raw.decode()
+            r.text = text
         elif body == "text":
-            r.text = raw.decode()
+            r.text = text
+        elif body in ("jsononly", "jsononly-noct"):
+            def js3():
+                return json.loads(text)     # raises ValueError for an unparsable body, as requests does
+            r.json = js3
+            r.text = ""
         else:
             r.text = None
-            r.content = raw
+            r.content = text.encode()
         return r
 
     mod.get = get
@@ -721,7 +786,8 @@ class Setup:
                     from rbacx.store.http_store import HTTPPolicySource
                     self.requests = make_requests(self.world, bool(kind[1]), fl)
                     sys.modules["requests"] = self.requests
-                    self.src = HTTPPolicySource("http://policies.test/policy.json", validate_schema=validate)
+                    url = "http://policies.test/policy" + (".yaml" if fl.get("fmt") == "yaml-url" else ".json")
+                    self.src = HTTPPolicySource(url, validate_schema=validate)
                 elif kind[0] == "s3":
                     from rbacx.store.s3_store import S3PolicySource
                     det = ["etag", "version_id", "checksum"][kind[1]]
@@ -1376,6 +1442,17 @@ try:
 except Exception:  # noqa: BLE001
     HAVE_JSONSCHEMA = False
 
+try:
+    import yaml as _yaml  # noqa: F401
+    HAVE_YAML = True
+except Exception:  # noqa: BLE001
+    HAVE_YAML = False
+
+HTTP_SHAPES = ([("json", "json"), ("jsonraise", "json"), ("text", "json"), ("content", "json"), ("jsononly", "json"),
+                ("jsononly-noct", "json")]
+               + ([(b_, f_) for f_ in ("yaml-ct", "yaml-url") for b_ in ("jsonraise", "text", "content")] if HAVE_YAML
+                  else []))
+
 KINDS = ([["gen", m] for m in range(4)] + [["file", False], ["file", True], ["http", True], ["http", False],
          ["s3", 0, None], ["s3", 1, None], ["s3", 2, 0], ["s3", 2, None], ["s3", 2, 3]])
 
@@ -1386,9 +1463,17 @@ def flavour_for(kind, rng):
     if kind[0] == "gen":
         return {"exc": rng.choice(["runtime", "os", "value", "timeout", "custom", "key", "json", "fnf"])}
     if kind[0] == "http":
-        return {"body": rng.choice(["json", "json", "text", "content", "jsonraise"]),
-                "hkey": rng.choice(["ETag", "ETag", "etag"]), "ctype": rng.random() < 0.5,
-                "status5": rng.choice([500, 502, 503]), "etag304": rng.random() < 0.3, "weak": rng.random() < 0.25}
+        ci = rng.random() < 0.4
+        fl = {"body": rng.choice(["json", "json", "text", "content", "jsonraise", "jsononly", "jsononly", "jsononly-noct"]),
+              "hkey": rng.choice(["ETag", "etag", "Etag", "ETAG", "eTag"] if ci else ["ETag", "ETag", "etag"]),
+              "ctype": rng.random() < 0.5, "status5": rng.choice([500, 502, 503]), "etag304": rng.random() < 0.3,
+              "weak": rng.random() < 0.25, "ci": ci,
+              "fmt": rng.choice(["json", "json", "json", "yaml-ct", "yaml-url"]) if HAVE_YAML else "json"}
+        if fl["fmt"] == "yaml-ct":
+            fl["yaml_ct"] = rng.choice(["application/yaml", "application/x-yaml", "text/yaml; charset=utf-8"])
+        if rng.random() < 0.3:
+            fl["json_ct"] = rng.choice(["application/json; charset=utf-8", "Application/JSON", "application/problem+json"])
+        return fl
     if kind[0] == "s3":
         return {"rawetag": rng.random() < 0.3, "clienterror": rng.random() < 0.3}
     return {}
@@ -1484,6 +1569,24 @@ def gen_cases(chk):
                             n_ = len(cases)
                             cases.append(make_case(kind, pre + mid_ + back + fin, rng, "schema", il=bool(n_ % 2),
                                                    validate=(n_ // 2) % 4 != 3, straddle=False, variant=0))
+    # 1d. HTTP: every response shape (HTTP_SHAPES: which of .json() / .text / .content the response offers, JSON or YAML
+    #     text, Content-Type present / absent / YAML / text-plain with a .yaml URL, header container and letter case) x
+    #     validate_schema on/off x histories in which valid, unparsable and schema-rejected revisions are published
+    sh_hist = [["winv", "chk"], ["chk", "winv", "frc"], ["wbad", "chk", "T+", "winv", "chk"], ["frc~winv"],
+               ["chk", "winv", "frc", "wprev", "frc"], ["winv", "frc", "wnew", "frc"], ["wbad", "frc", "wnew", "chk"]]
+    if thorough:
+        sh_hist += [["chk", "wnew", "chk", "winv", "T+", "chk"], ["chk~winv", "T+", "chk"], ["del", "chk", "winv", "frc"]]
+    for et in (True, False):
+        for si, (body, fmt) in enumerate(HTTP_SHAPES):
+            for hist in sh_hist:
+                for val in ((True, False) if HAVE_JSONSCHEMA else (False,)):
+                    n_ = len(cases)
+                    case = make_case(["http", et], hist, rng, "shape", il=bool(n_ % 2), validate=val, straddle=False,
+                                     variant=0)
+                    case["flavour"].update(body=body, fmt=fmt, ctype=bool((n_ // 2) % 2))
+                    if fmt == "yaml-ct":
+                        case["flavour"].setdefault("yaml_ct", "application/yaml")
+                    cases.append(case)
     # 2. random long histories
     n_long = 4000 if thorough else 600
     for _ in range(n_long):
@@ -2040,7 +2143,11 @@ def run(chk):
                 "seeded samples of length 3-5 and random histories up to length 30, for the file source also histories in which "
                 "the file changes inside the etag()/load() call of a (forced) check after each of that call's file-system "
                 "calls, for file/HTTP/S3 also validating sources (validate_schema=True: ~30% of all cases and a dedicated "
-                "family) with schema-rejected revisions and roll-backs to earlier bytes, each followed by a stable tail of "
+                "family) with schema-rejected revisions and roll-backs to earlier bytes; HTTP responses in 12 shapes "
+                "(.json()+.text / .json() raising / .text only / .content only / .json() only with empty text, with or "
+                "without a JSON Content-Type / YAML text announced by Content-Type or by a .yaml URL; header container "
+                "case-insensitive or a plain dict, ETag in five spellings; strong and weak ETags), each shape crossed with "
+                "validate on/off and valid / unparsable / schema-rejected revisions, each followed by a stable tail of "
                 "three unforced checks on which convergence is judged; initial_load on/off, guard built from the "
                 "source's document or from an unrelated one, six back-off configurations, checks run through "
                 "check_and_reload_async, check_and_reload (no loop / under a running loop) and poll_once; plus every "
